@@ -29,9 +29,22 @@ def setup_repo_import():
         sys.path.insert(0, REPO)
     os.environ['PYTHONPATH'] = REPO + os.pathsep + VERIF
     import jedi
+    private_cache()
     if not os.path.abspath(jedi.__file__).startswith(os.path.abspath(REPO) + os.sep):
         raise MachineryError('jedi imported from %s, not %s' % (jedi.__file__, REPO))
     return jedi
+
+
+def private_cache():
+    """Every process gets its own parser-cache directory: parso's pickle cache is not safe against concurrent
+    writers/readers (a half-written pickle raises UnpicklingError/EOFError in another process)."""
+    import jedi
+    base = os.environ.get('VERIF_CACHE_BASE') or tempfile.gettempdir()
+    d = os.path.join(base, 'jcache_%d' % os.getpid())
+    os.makedirs(d, exist_ok=True)
+    jedi.settings.cache_directory = d
+    atexit.register(shutil.rmtree, d, True)
+    return d
 
 
 def load_known_findings():
@@ -53,6 +66,7 @@ class Ctx:
         self.t0 = time.time()
         self.tmp = tempfile.mkdtemp(prefix='verif_%s_' % prop)
         atexit.register(shutil.rmtree, self.tmp, True)
+        os.environ['VERIF_CACHE_BASE'] = self.tmp
         self.violations = []       # (key, description, replay path)
         self.known_hits = {}       # key -> (description, count)
         self.coverage = {'states': 0, 'transitions': 0,
